@@ -447,6 +447,71 @@ def run(rep: Report, tier: str) -> None:  # noqa: C901
     rep.rule("R07.9", "check / check_datapoint / check_hierarchy validators do not mutate the structure of their operands")
     from sa.checks.c12 import operand_mutations
     operand_mutations(P, rep, "R07.9", ("vtlengine.Operators.Validation", "vtlengine.Operators.HROperators"), floor=3)
+    # ---- R07.11 hierarchy: which rules aggregate, and "one rule per code item", decided on the rule proper of a WHEN-guarded rule ----
+    rep.rule("R07.11", "visit_HROperation (hierarchy branch) evaluated on rulesets with WHEN-guarded rules: the rules kept are exactly the `=` rules (bare or behind a WHEN), and two "
+                       "rules are rejected (1-1-10-10) exactly when they define the same code item - whatever their conditions are")
+    from sa.e6 import ExternalObj as _EO11, Interp as _I11, Raised as _R11, Unmodelled as _U11
+    from sa import structmodel as _sm11
+    fh = P.func("vtlengine.Interpreter.InterpreterAnalyzer.visit_HROperation")
+    hier_if = [st for st in walk_no_nested(fh.node) if isinstance(st, ast.If) and any(isinstance(x, ast.Name) and x.id == "HIERARCHY" for x in ast.walk(st.test))
+               and any(isinstance(x, ast.Constant) and x.value == "1-1-10-10" for x in ast.walk(st))]
+    if len(hier_if) != 1:
+        raise AnalysisError("visit_HROperation: the hierarchy rule selection (1-1-10-5 / 1-1-10-10) not found (anchor changed)")
+    node_param = [x for x in fh.params if x != "self"][0]
+    # the local that holds the ruleset record ({"rules": ..., "node": ...}) and the one that holds its name
+    info_vars = {x.value.id for x in ast.walk(hier_if[0]) if isinstance(x, ast.Subscript) and isinstance(x.value, ast.Name) and isinstance(x.slice, ast.Constant) and x.slice.value == "rules"}
+    if len(info_vars) != 1:
+        raise AnalysisError("visit_HROperation: the ruleset record read by the hierarchy branch not identified")
+    info_var = next(iter(info_vars))
+    free = {x.id for x in ast.walk(hier_if[0]) if isinstance(x, ast.Name) and isinstance(x.ctx, ast.Load)} - {x.id for x in ast.walk(hier_if[0]) if isinstance(x, ast.Name) and isinstance(x.ctx, ast.Store)}
+    H_TOK = _I11(P).eval(ast.parse("HIERARCHY", mode="eval").body, {}, fh)
+    EQ_TOK = _I11(P).eval(ast.parse("EQ", mode="eval").body, {}, fh)
+    WHEN_TOK = _I11(P).eval(ast.parse("WHEN", mode="eval").body, {}, fh)
+
+    class _N(_sm11.MNode):
+        _e6_complete = True  # every field the hierarchy branch may read is given below: a missing one is the program's AttributeError
+
+        def __eq__(self, o: object) -> bool:  # AST nodes compare structurally
+            return isinstance(o, _sm11.MNode) and {k: v for k, v in self.__dict__.items()} == {k: v for k, v in o.__dict__.items()}
+        __hash__ = None  # type: ignore[assignment]
+
+    def _ci(v: str) -> Any:
+        return _N("DefIdentifier", value=v, kind="CodeItemID")
+
+    def _rule(name: str, item: str, op: str = EQ_TOK, cond: Optional[str] = None) -> Any:
+        body = _N("HRBinOp", left=_ci(item), op=op, right=_N("HRBinOp", left=_ci("B"), op="+", right=_ci("C")))
+        if cond is not None:
+            body = _N("HRBinOp", left=_N("BinOp", left=_N("VarID", value="Id_3"), op="=", right=_N("Constant", value=cond)), op=WHEN_TOK, right=body)
+        return _N("HRule", name=name, rule=body, erCode=None, erLevel=None)
+    n11 = 0
+    for label, rules, want in (
+            ("same-condition-different-items", [_rule("R1", "A", cond="X"), _rule("R2", "D", cond="X")], ("ok", ["R1", "R2"])),
+            ("different-conditions-same-item", [_rule("R1", "A", cond="X"), _rule("R2", "A", cond="Y")], ("raise", "1-1-10-10")),
+            ("bare-and-guarded-same-item", [_rule("R1", "A"), _rule("R2", "A", cond="Y")], ("raise", "1-1-10-10")),
+            ("bare-same-item", [_rule("R1", "A"), _rule("R2", "A")], ("raise", "1-1-10-10")),
+            ("guarded-comparison-dropped", [_rule("R1", "A", cond="X"), _rule("R2", "D", op=">", cond="X"), _rule("R3", "E", op=">=")], ("ok", ["R1"])),
+            ("no-equality-rule", [_rule("R1", "A", op=">"), _rule("R2", "D", op="<", cond="X")], ("raise", "1-1-10-5"))):
+        info = {"rules": list(rules), "node": _N("HRuleset", signature_type="variable", element=_N("DefIdentifier", value="Id_2", kind="DatasetID"), name="hr")}
+        env = {v: "hr" for v in free if v not in (node_param, info_var)}
+        env = {k: v for k, v in env.items() if k not in ("HIERARCHY", "EQ", "WHEN", "SemanticError", "AST", "HRDAGAnalyzer", "len")}
+        env[node_param] = _N("HROperation", op=H_TOK, line_start=1, line_stop=1, column_start=1, column_stop=1)
+        env[info_var] = info
+        ext = {"AST.HRuleset": lambda **kw: _N("HRuleset", **kw), "HRuleset": lambda **kw: _N("HRuleset", **kw), "HRDAGAnalyzer": lambda: _EO11({"visit": lambda x: None})}
+        try:
+            _I11(P, externals=ext, max_steps=4000).exec(hier_if[0], env, fh)
+            got: Tuple[str, Any] = ("ok", [r.name for r in info["rules"]])
+        except _R11 as r:
+            got = ("raise", getattr(r.exc, "code", None) or getattr(r.exc, "kind", type(r.exc).__name__))
+        except _U11 as e:
+            raise AnalysisError(f"R07.11: the hierarchy rule selection is outside the evaluator's language: {e}")
+        n11 += 1
+        rep.instance("R07.11", f"hierarchy-rules/{label}", nontrivial=True, sample={"rules": [f"{r.name}: {'when … then ' if r.rule.op == WHEN_TOK else ''}{(r.rule.right if r.rule.op == WHEN_TOK else r.rule).left.value} {(r.rule.right if r.rule.op == WHEN_TOK else r.rule).op} …" for r in rules], "outcome": list(got)})
+        if got != want:
+            rep.add(Finding("R07.11", f"R07.11/hierarchy-rules/{label}", fh.module.rel, hier_if[0].lineno, fh.qualname,
+                            f"hierarchy over the ruleset {[('when … then ' if r.rule.op == WHEN_TOK else '') + (r.rule.right if r.rule.op == WHEN_TOK else r.rule).left.value + ' ' + (r.rule.right if r.rule.op == WHEN_TOK else r.rule).op + ' …' for r in rules]}: "
+                            f"the rule selection gives {got}, the operator's definition gives {want} (the aggregating rules are the `=` rules, one per code item; the condition of a WHEN-guarded "
+                            f"rule is not its code item)"))
+    rep.floor("R07.11 rulesets evaluated", n11, 6)
     rep.assumptions = ["SQL three-valued logic (Kleene) for AND/OR/NOT, IS [NOT] FALSE, CASE", "the pivot column naming helpers _has_col / _val_col are the only producers of those names"]
 
 
